@@ -21,11 +21,11 @@ func init() {
 	core.Register(&core.Prop{
 		ID:           "C18",
 		Level:        "exploration",
-		Workers:      4,
+		Workers:      8,
 		Race:         true,
 		RaceAdvisory: true, // client-side races are judged by C20; here they are only counted
 		CaseTimeout:  200e9,
-		Rule: "two kinds of cases. (a) notification content / count, deterministic, direct mode: scenarios of C05's generator; after every request and server idleness the MQTT stand-in's publish log must have grown by exactly one message on <collection>/<key> carrying {CUID: pusher, DUID, sseq: new end of log} for every datatype of the request that stored >= 1 operation, and by none otherwise. (b) realtime: 2-5 REALTIME SDK clients over real grpc and real paho clients on the MQTT stand-in (deliveries delayed at random; responses of served requests held back 0-5 ms so that notifications overtake them; a solo client loses 40 % of the responses to its pushes) subscribe, complete their first sync and then only issue local operations from their own goroutines at random moments, no Sync() call; after the last operation the harness waits for logical quiescence (no RPC in flight, no queued delivery, no announced background goroutine, no database command in progress, and no new RPC / publish event during a 2 s silence window) and then requires equal state on all clients and nothing left to push; no client may start a push-pull because of a notification that its own push caused (hook events dm.notification / dm.sync.on-notification joined on receiver and sseq; a solo client, all of whose notifications are its own, must also issue no more push-pull RPCs than its local operations started); the run is under the race detector; " +
+		Rule: "two kinds of cases. (a) notification content / count, deterministic, direct mode: scenarios of C05's generator; after every request and server idleness the MQTT stand-in's publish log must have grown by exactly one message on <collection>/<key> carrying {CUID: pusher, DUID, sseq: new end of log} for every datatype of the request that stored >= 1 operation, and by none otherwise. (b) realtime: 2-5 REALTIME SDK clients over real grpc and real paho clients on the MQTT stand-in (deliveries delayed at random; responses of served requests held back 0-5 ms so that notifications overtake them; a solo client loses 40 % of the responses to its pushes) subscribe, complete their first sync and then only issue local operations from their own goroutines at random moments, no Sync() call; after the last operation the harness waits for logical quiescence (no RPC in flight, no queued delivery, no announced background goroutine, no database command in progress, and no new RPC / publish event during a 2 s silence window) and then requires equal state on all clients and nothing left to push; in every second realtime case an epilogue steered by logical events follows (deliveries held at the broker while B pushes; A's next push held at the front after it was served; A issues a second operation and B's notification is released to A during that flight; then nothing else happens) with the same quiescence oracle; no client may start a push-pull because of a notification that its own push caused (hook events dm.notification / dm.sync.on-notification joined on receiver and sseq; a solo client, all of whose notifications are its own, must also issue no more push-pull RPCs than its local operations started); the run is under the race detector; " +
 			"non-trivial = (a) >= 3 requests stored operations and >= 1 stored none; (b) >= 2 clients issued operations concurrently; distinct = hash of the script (a) / of the observed RPC order (b)",
 		Assumptions: []string{
 			"'converge by themselves' is decided as bounded progress to logical quiescence; not quiescent within 60 s => inconclusive",
@@ -131,6 +131,19 @@ func c18Content(c *core.Case) *core.Result {
 		c.NonTrivial()
 	}
 	return c.Held()
+}
+
+// sureOp returns a call that is valid in every state of the type and always emits an operation.
+func sureOp(typ string, g *crdt.Gen) crdt.Op {
+	switch typ {
+	case "counter":
+		return crdt.Op{Kind: "inc", N: 1 + g.R.Intn(5)}
+	case "map":
+		return crdt.Op{Kind: "put", Key: "k0", Val: g.Tag()}
+	case "list":
+		return crdt.Op{Kind: "ins", Pos: 0, Vals: []interface{}{g.Tag()}}
+	}
+	return crdt.Op{Kind: "put", Key: "k0", Val: g.Tag()}
 }
 
 // ---- (b) realtime clients
@@ -317,37 +330,114 @@ func c18Realtime(c *core.Case) *core.Result {
 	}
 	wg.Wait()
 	c.Step("%d clients issued %d operations each from their own goroutines; waiting for logical quiescence", ncli, nops)
-	// logical quiescence with a silence window
-	deadline := time.Now().Add(60 * time.Second)
-	lastEvents, silentSince := -1, time.Now()
-	quiet := false
-	for time.Now().Before(deadline) {
-		events := len(rpc.Calls()) + b.MQ.NumPubs()
-		busy := rpc.InFlight() != 0 || b.MQ.Queued() != 0 || vhook.Pending() != 0 || b.DB.OpenCommands() != 0
-		if busy || events != lastEvents {
-			lastEvents, silentSince = events, time.Now()
-		} else if time.Since(silentSince) > 2*time.Second {
-			quiet = true
-			break
+	// logical quiescence with a silence window, then equal state and nothing left to push
+	settleAndCompare := func(stage string) *core.Result {
+		deadline := time.Now().Add(60 * time.Second)
+		lastEvents, silentSince := -1, time.Now()
+		quiet := false
+		for time.Now().Before(deadline) {
+			events := len(rpc.Calls()) + b.MQ.NumPubs()
+			busy := rpc.InFlight() != 0 || b.MQ.Queued() != 0 || vhook.Pending() != 0 || b.DB.OpenCommands() != 0
+			if busy || events != lastEvents {
+				lastEvents, silentSince = events, time.Now()
+			} else if time.Since(silentSince) > 2*time.Second {
+				quiet = true
+				break
+			}
+			time.Sleep(20 * time.Millisecond)
 		}
-		time.Sleep(20 * time.Millisecond)
+		if !quiet {
+			return c.Inconclusive("no logical quiescence within 60 s %s (rpc in flight %d, queued deliveries %d, background goroutines %d)", stage, rpc.InFlight(), b.MQ.Queued(), vhook.Pending())
+		}
+		base := ""
+		for i, x := range cls {
+			v := crdt.Canon(x.dt.ToJSON())
+			if cn, ok := x.dt.(orda.Counter); ok {
+				v = crdt.Canon(cn.Get())
+			}
+			if i == 0 {
+				base = v
+			} else if v != base {
+				return c.Violation("realtime-no-convergence", "%s: the system is quiescent (no RPC, no queued notification, no background goroutine for 2 s) but client %s reads %s while client %s reads %s", stage, cls[0].alias, clip(base, 400), x.alias, clip(v, 400))
+			}
+			if p := x.w.CreatePushPullPack(); len(p.Operations) > 0 {
+				return c.Violation("realtime-unpushed-operations", "%s: the system is quiescent but client %s still holds %d operations that were never pushed", stage, x.alias, len(p.Operations))
+			}
+		}
+		return nil
 	}
-	if !quiet {
-		return c.Inconclusive("no logical quiescence within 60 s (rpc in flight %d, queued deliveries %d, background goroutines %d)", rpc.InFlight(), b.MQ.Queued(), vhook.Pending())
+	if res := settleAndCompare("after the concurrent phase"); res != nil {
+		return res
 	}
-	base := ""
-	for i, x := range cls {
-		v := crdt.Canon(x.dt.ToJSON())
-		if cn, ok := x.dt.(orda.Counter); ok {
-			v = crdt.Canon(cn.Get())
+	if ncli >= 2 && (c.Index/2)%2 == 0 {
+		// epilogue, steered by logical events only: a push of client A is in flight (its response
+		// is held at the front), A issues a second operation meanwhile, and the notification of
+		// an operation that B pushed BEFORE A's request was served reaches A during that flight
+		// (deliveries were held at the broker). Nothing else happens afterwards: whatever A and B
+		// issued must still reach everybody.
+		A, B := cls[0], cls[1]
+		gA := crdt.NewGen(newRand(r.Int63()))
+		b.MQ.Hold()
+		released := false
+		release := func() {
+			if !released {
+				released = true
+				b.MQ.Release()
+			}
 		}
-		if i == 0 {
-			base = v
-		} else if v != base {
-			return c.Violation("realtime-no-convergence", "the system is quiescent (no RPC, no queued notification, no background goroutine for 2 s) but client %s reads %s while client %s reads %s", cls[0].alias, clip(base, 400), x.alias, clip(v, 400))
+		defer release()
+		pubs0 := b.MQ.NumPubs()
+		crdt.Apply(B.dt, sureOp(typ, gA))
+		for t := 0; t < 500 && b.MQ.NumPubs() == pubs0; t++ {
+			time.Sleep(10 * time.Millisecond)
 		}
-		if p := x.w.CreatePushPullPack(); len(p.Operations) > 0 {
-			return c.Violation("realtime-unpushed-operations", "the system is quiescent but client %s still holds %d operations that were never pushed", x.alias, len(p.Operations))
+		if b.MQ.NumPubs() == pubs0 {
+			return c.Inconclusive("epilogue: B's push was not announced within 5 s")
+		}
+		served := make(chan struct{}, 1)
+		arrived := make(chan struct{}, 1)
+		var armed int32 = 1
+		var seenInFlight int32
+		b.OnHook(func(point string, args ...interface{}) {
+			if point == "dm.notification" && len(args) >= 2 && args[0] == A.cuid && args[1] == B.cuid {
+				select {
+				case arrived <- struct{}{}:
+				default:
+				}
+			}
+		})
+		rpc.SetFaults(nil, func(req *model.PushPullMessage) time.Duration {
+			if req.Cuid == A.cuid && atomic.CompareAndSwapInt32(&armed, 1, 0) {
+				served <- struct{}{}
+				select {
+				case <-arrived:
+					atomic.StoreInt32(&seenInFlight, 1)
+				case <-time.After(3 * time.Second):
+				}
+				return 5 * time.Millisecond
+			}
+			return 0
+		})
+		crdt.Apply(A.dt, sureOp(typ, gA))
+		select {
+		case <-served:
+		case <-time.After(5 * time.Second):
+			return c.Inconclusive("epilogue: A's push did not reach the front within 5 s")
+		}
+		crdt.Apply(A.dt, sureOp(typ, gA)) // while A's push is in flight
+		release()                     // B's earlier notification now reaches A, still during the flight
+		c.Step("epilogue: A's push in flight, second operation of A, delayed notification of B's earlier push delivered to A")
+		c.Count("epilogues_push_in_flight_meets_notification", 1)
+		epilogueSeen := &seenInFlight
+		defer func() {
+			if atomic.LoadInt32(epilogueSeen) == 1 {
+				c.Count("epilogue_notification_arrived_during_flight", 1)
+			} else {
+				c.Count("epilogue_notification_not_seen_during_flight", 1)
+			}
+		}()
+		if res := settleAndCompare("after a push in flight met a second local operation and a delayed foreign notification"); res != nil {
+			return res
 		}
 	}
 	nmu.Lock()
